@@ -46,6 +46,11 @@ CLAIMED = {
             'tables with per-epoch candidate counts: on every path the decoded sequence is proved optimal against all enumerated candidate sequences and hmm_cost at the last epoch equal to the optimum; '
             'likelihood mode (incl. exact zeros) with math.log as a monotone uninterpreted function, linked to the log-form run of the same model.',
             'DESIGN.md#c09', 'T <= 3 epochs, S <= 2 (+ (2,3,2)) quick; T <= 5 with S = 2, T = 3 with S <= 3 thorough; costs in [-100,0]', ''),
+    'C10': ('Bounded model checking of map-matching on catalogue networks with a symbolic observed position: candidate generation (spatial-index neighbourhood, projection on the edge geometry, '
+            'radius filter, distances to the end nodes) is executed for real with the decoder cut out, and every candidate on every path is proved to name an existing edge, to lie on its polyline, '
+            'within the search radius, with end-node distances adding up to the edge length; the unmatched flag is checked; selection jobs run the real HMM and prove the inferred state is one of the '
+            'candidates; observations, positions and timestamps are unchanged. A fix exactly on the line of a vertical edge is a recorded known finding.',
+            'DESIGN.md#c10', 'networks L (horizontal/vertical) and tri (oblique) (quick) + bend (3-vertex edge), index resolutions (5,1) / (2,2), radii 2, 5.5, 50; one symbolic fix', ''),
     'C11': ('Bounded model checking of split() over every marker vector (one path per vector, markers symbolic 0/1) and of segmentation() over symbolic '
             'real-or-NaN feature values and thresholds in both comparison modes, including a second run into the same output feature.',
             'DESIGN.md#c11', 'split: n <= 9 (quick) / 13 (thorough); segmentation: n <= 2/3 observations, <= 3 tested features', ''),
